@@ -78,9 +78,9 @@ def to_coq_case(rec):
         pt = {"yield": "(PYield %d)" % i["k"], "pre": "PPre", "post": "PPost", "interblock": "PInter"}[i["point"]]
     ob = "(mkObs %s %s %s %s %s %s %s)" % (_b(o["hash_eq"]), _b(o["next_eq"]), _b(o["tx_eq"]), _b(o["base_ok"]), _b(o["tx_ok"]),
                                           _zl(o["base"]), _zl(o["with"]))
-    return "(mkCase %s %s %s %s [%s] %s %s [%s] %s %s %s)" % (
+    return "(mkCase %s %s %s %s [%s] %s %s [%s] %s %s %s %s %s)" % (
         _z(i["value"]), _z(i["bal"][0]), _z(i["bal"][1]), _z(i["bal"][2]), "; ".join(steps), _b(i["revert"]), pt,
-        "; ".join(qs), _z(o["gas"][0]), _z(o["gas"][1]), ob)
+        "; ".join(qs), _z(o["gas"][0]), _z(o["gas"][1]), _z(o["gas2"][0]), _z(o["gas2"][1]), ob)
 
 
 def _in_flight(rec):
